@@ -66,7 +66,23 @@ let line l =
        else if not (DegGraph.idom_is_dominator_table c idom) then "(idom-not-the-dominator-table)"
        else if not (DegGraph.single_assignment_b c) then "(local-assigned-twice)"
        (* forward_b: loop-free, the hypothesis of C07_loop_free_graph_claims_true (not a defect when false) *)
-       else if DegGraph.forward_b c then "(deg-graph-ok loop-free)" else "(deg-graph-ok loops)"
+       else
+         (* the hypotheses of C07_loops_runs_represented / C07_loops_runs_claims_true (graphs WITH loops): infos_ok on the
+            maps C14's validator computes, and the conjuncts of DegLoops.loops_ok, each named when unmet *)
+         let loops =
+           match SsaCheck.compute_infos c.c_params idom c.c_blocks [] with
+           | None -> "(loops-hyp no-version-maps)"
+           | Some infos ->
+             (* every conjunct is evaluated and every unmet one is named *)
+             let unmet =
+               (if SsaCheck.infos_ok infos c then [] else ["infos-not-ok"])
+               @ (if DegLoops.targets_versioned c then [] else ["targets-not-versioned"])
+               @ (if DegLoops.update_bases_fresh c then [] else ["update-base-assigned"])
+               @ (if DegLoops.no_future_version infos c then [] else ["future-version"]) in
+             if unmet = [] then (if DegLoops.loops_ok infos c then "(loops-ok)" else "(loops-hyp loops_ok-false)")
+             else "(loops-hyp " ^ Stdlib.String.concat " " unmet ^ ")" in
+         (* forward_b: loop-free, the hypothesis of C07_loop_free_graph_claims_true (not a defect when false) *)
+         (if DegGraph.forward_b c then "(deg-graph-ok loop-free)" else "(deg-graph-ok loops)") ^ " " ^ loops
      | _ -> "(badline)")
   | "ssa" ->
     (* ssa (cfg ...) (dominfo (frontier ..) (children ..)) : the construction mirror *)
@@ -88,7 +104,14 @@ let line l =
        let idom = Stdlib.List.map (function A "-" -> None | x -> Some (num_n x)) ds in
        let c = r_cfg c in
        if not (SsaCheck.ssa_check c idom) then "(invalid)"
-       else if not (SsaCheck.unversioned_reads_ok c) then "(unversioned-local-read)" else "(valid)"
+       else if not (SsaCheck.unversioned_reads_ok c) then "(unversioned-local-read)"
+       (* proof round 4: the same condition over the table rebuilt from the Declaration statements, and
+          every versioned name is listed by a Declaration statement or is a version of a parameter
+          (the conclusions of C14_construction_unversioned_reads_ok / C14_construction_versions_stmt_declared,
+          evaluated on the REAL graph) *)
+       else if not (SsaCheck.unversioned_reads_ok (SsaDecls.with_stmt_decls c)) then "(unversioned-local-read-by-declaration-statements)"
+       else if not (SsaDecls.versions_stmt_declared c) then "(version-without-declaration-statement)"
+       else "(valid)"
      | _ -> "(badline)")
   | "ssapre" ->
     (* ssapre (cfg before SSA) (dominfo (frontier ..) (children ..)) : the hypotheses of the construction theorems *)
@@ -102,6 +125,10 @@ let line l =
        (* the decidable hypotheses of C14_construction_paths_ok *)
        else if not (SsaPre.ssa_dyn_pre_ok c) then "(dynamic-theorem-hypotheses-unmet)"
        else if not (SsaPre.children_treeb (nl ch) (nat_of_int (Stdlib.List.length c.c_blocks))) then "(children-not-a-tree)"
+       (* proof round 4, the hypotheses of C14_construction_unversioned_reads_ok / C14_construction_versions_stmt_declared:
+          the declaration table and the Declaration statements of the graph before conversion agree *)
+       else if not (SsaDecls.decl_stmts_declared c) then "(declaration-statement-of-a-local-not-in-the-table)"
+       else if not (SsaDecls.locals_have_decl_stmt c) then "(local-of-the-table-without-declaration-statement)"
        else "(pre-ssa-ok)"
      | _ -> "(badline)")
   | "erasecheck" ->
